@@ -324,3 +324,192 @@ Proof.
   rewrite print_version_eq. unfold print_ver_main, print_sufs, revtxt. cbn [v_nums v_letter v_sufs v_rev].
   rewrite Hx, Hr1, Hr2, Hr3, E5. now rewrite <- !app_assoc.
 Qed.
+
+(* ---- properties of printed versions ---- *)
+(* every hyphen is followed by "r" *)
+Fixpoint hy_r (s : bytes) : bool :=
+  match s with [] => true | c :: r => (negb (is 45 c) || is 114 (peek r)) && hy_r r end.
+Definition nohy (c : ascii) : bool := negb (is 45 c).
+Lemma hy_r_nohy a : forallb nohy a = true -> forall b, hy_r (a ++ b) = hy_r b.
+Proof.
+  induction a as [|c a IH]; intros Ha b; [reflexivity|]. cbn in Ha. apply andb_true_iff in Ha as [Hc Ha].
+  cbn [app hy_r]. unfold nohy in Hc. rewrite Hc. cbn [orb andb]. now apply IH.
+Qed.
+Lemma hy_r_bad y d rest : is_digit d = true -> hy_r (y ++ nb 45 :: d :: rest) = false.
+Proof.
+  assert (Hd : forall c, is_digit c = true -> is 114 c = false) by (apply impl_bytes_neg; bytes_check).
+  intros H. induction y as [|c y IH]; cbn [app hy_r peek].
+  - rewrite (Hd d H). reflexivity.
+  - rewrite IH. apply andb_false_r.
+Qed.
+
+(* characters of the numbers, letter and suffixes *)
+Definition vb_char (c : ascii) : bool := is_digit c || is 46 c || is_lower c || is 95 c.
+Lemma forallb_app_intro {A} (p : A -> bool) a b : forallb p a = true -> forallb p b = true -> forallb p (a ++ b) = true.
+Proof. intros. rewrite forallb_app. now rewrite H, H0. Qed.
+Lemma vb_digits d : forallb is_digit d = true -> forallb vb_char d = true.
+Proof. apply forallb_impl. apply impl_bytes. bytes_check. Qed.
+Lemma vb_join nums : Forall nd nums -> forallb vb_char (join (nb 46) nums) = true.
+Proof.
+  induction nums as [|d ns IH]; intros HF; [reflexivity|]. inversion HF as [|? ? [_ Hd] HF']; subst.
+  destruct ns as [|d2 ns]; [now apply vb_digits|].
+  change (join (nb 46) (d :: d2 :: ns)) with (d ++ nb 46 :: join (nb 46) (d2 :: ns)).
+  apply forallb_app_intro; [now apply vb_digits|]. cbn [forallb]. rewrite IH by assumption. reflexivity.
+Qed.
+Lemma vb_suf_name k : forallb vb_char (suf_name k) = true.
+Proof. unfold suf_name. repeat (destruct (_ =? _); [reflexivity|]). reflexivity. Qed.
+Lemma vb_sufs sufs : Forall sufwf sufs -> forallb vb_char (flat_map print_suf sufs) = true.
+Proof.
+  induction sufs as [|[k d] sufs IH]; intros HF; [reflexivity|]. inversion HF as [|? ? [_ Hd] HF']; subst. cbn [fst snd] in *.
+  cbn [flat_map]. apply forallb_app_intro; [|now apply IH]. unfold print_suf. cbn [fst snd forallb].
+  replace (vb_char (nb 95)) with true by reflexivity. cbn [andb]. apply forallb_app_intro; [apply vb_suf_name|now apply vb_digits].
+Qed.
+Lemma vb_body v : wfv v -> forallb vb_char (print_ver_main v ++ print_sufs v) = true.
+Proof.
+  intros [Hne Hn Hl Hs Hr]. unfold print_ver_main, print_sufs. repeat apply forallb_app_intro.
+  - now apply vb_join. - destruct (v_letter v) as [c|]; [|reflexivity]. cbn. unfold vb_char. rewrite Hl. now rewrite !orb_true_r.
+  - now apply vb_sufs.
+Qed.
+Lemma vb_nohy : forall c, vb_char c = true -> nohy c = true.
+Proof. apply impl_bytes. bytes_check. Qed.
+
+Lemma hy_r_version v g : wfv v -> hy_r (print_version v ++ globtxt g) = true.
+Proof.
+  intros W. rewrite print_version_eq. rewrite app_assoc, <- app_assoc.
+  rewrite hy_r_nohy by (eapply forallb_impl; [apply vb_nohy|now apply vb_body]).
+  unfold revtxt. pose proof (wfv_rev v W) as Hr. destruct (v_rev v) as [d|].
+  - destruct Hr as [_ Hd]. cbn [app].
+    change (hy_r (nb 45 :: nb 114 :: d ++ globtxt g)) with ((negb (is 45 (nb 45)) || is 114 (nb 114)) && hy_r (nb 114 :: d ++ globtxt g)).
+    replace (negb (is 45 (nb 45)) || is 114 (nb 114)) with true by reflexivity. cbn [andb].
+    rewrite <- (app_nil_r (nb 114 :: d ++ globtxt g)). rewrite hy_r_nohy; [reflexivity|].
+    cbn [forallb]. replace (nohy (nb 114)) with true by reflexivity. cbn [andb]. apply forallb_app_intro.
+    + eapply forallb_impl; [|exact Hd]. apply impl_bytes. bytes_check. + destruct g; reflexivity.
+  - cbn [app]. destruct g; reflexivity.
+Qed.
+
+(* every character of a printed version (with optional star) *)
+Definition ver_char (c : ascii) : bool := vb_char c || is 45 c || is 42 c.
+Lemma ver_chars v g : wfv v -> forallb ver_char (print_version v ++ globtxt g) = true.
+Proof.
+  intros W. rewrite print_version_eq.
+  replace (print_ver_main v ++ print_sufs v ++ revtxt v) with ((print_ver_main v ++ print_sufs v) ++ revtxt v) by now rewrite app_assoc.
+  apply forallb_app_intro; [apply forallb_app_intro|].
+  - eapply forallb_impl; [|now apply vb_body]. intros c Hc. unfold ver_char. now rewrite Hc.
+  - unfold revtxt. pose proof (wfv_rev v W) as Hr. destruct (v_rev v) as [d|]; [|reflexivity]. destruct Hr as [_ Hd].
+    cbn [forallb]. replace (ver_char (nb 45)) with true by reflexivity. replace (ver_char (nb 114)) with true by reflexivity.
+    cbn [andb]. eapply forallb_impl; [|exact Hd]. apply impl_bytes. bytes_check.
+  - destruct g; reflexivity.
+Qed.
+
+(* ---- the reference recogniser accepts printed versions (sanity of the reference itself) ---- *)
+Lemma split2_acc_nosep sep a : nosep sep a -> forall cur, split2_acc sep cur a = (rev (rev a ++ cur), None).
+Proof.
+  induction a as [|c a IH]; intros Hn cur; cbn; [reflexivity|].
+  assert (c <> sep) by (intro; subst; apply Hn; now left).
+  destruct (Ascii.eqb c sep) eqn:E; [apply Ascii.eqb_eq in E; congruence|].
+  rewrite IH by (intro; apply Hn; now right). now rewrite <- app_assoc.
+Qed.
+Lemma nosep_forallb sep (p : ascii -> bool) a : (forall c, p c = true -> c <> sep) -> forallb p a = true -> nosep sep a.
+Proof. intros Hp Ha Hin. rewrite forallb_forall in Ha. apply (Hp sep); auto. Qed.
+Lemma is_neq n m c : n <> m -> is n c = true -> c <> nb m.
+Proof. intros Hn H E. subst c. unfold is in H. apply N.eqb_eq in H. vm_compute in H. Abort.
+
+Lemma vb_not_hy : forall c, vb_char c = true -> c <> nb 45.
+Proof. intros c H E. subst. discriminate. Qed.
+Lemma digit_not : forall c, is_digit c = true -> c <> nb 46 /\ c <> nb 95 /\ c <> nb 45.
+Proof. intros c H. repeat split; intros E; subst; discriminate. Qed.
+Lemma lower_not : forall c, is_lower c = true -> c <> nb 46 /\ c <> nb 95 /\ c <> nb 45.
+Proof. intros c H. repeat split; intros E; subst; discriminate. Qed.
+
+Definition chunk_of (s : N * bytes) : bytes := suf_name (fst s) ++ snd s.
+Lemma body_join main sufs : main ++ flat_map print_suf sufs = join (nb 95) (main :: map chunk_of sufs).
+Proof.
+  revert main. induction sufs as [|[k d] sufs IH]; intros main; [cbn; now rewrite app_nil_r|].
+  cbn [flat_map map]. change (join (nb 95) (main :: chunk_of (k, d) :: map chunk_of sufs))
+    with (main ++ nb 95 :: join (nb 95) (chunk_of (k, d) :: map chunk_of sufs)).
+  rewrite <- IH. unfold print_suf, chunk_of. cbn [fst snd app]. now rewrite <- !app_assoc.
+Qed.
+
+Lemma suf_name_in k : k <= 4 -> In (suf_name k) [bs "alpha"; bs "beta"; bs "pre"; bs "rc"; bs "p"].
+Proof. intros Hk. assert (Hc : k = 0 \/ k = 1 \/ k = 2 \/ k = 3 \/ k = 4) by lia.
+  destruct Hc as [ -> | [ -> | [ -> | [ -> | -> ] ] ] ]; cbn; auto 6. Qed.
+Lemma skipn_app_exact {A} (a b : list A) : skipn (length a) (a ++ b) = b.
+Proof. induction a; cbn; auto. Qed.
+Lemma is_suf_chunk_ok s : sufwf s -> is_suf_chunk (chunk_of s) = true.
+Proof.
+  intros [Hk Hd]. unfold is_suf_chunk. apply existsb_exists. exists (suf_name (fst s)). split; [now apply suf_name_in|].
+  unfold chunk_of. rewrite skipn_app_exact, Hd. rewrite andb_true_r. apply prefixb_spec. now exists (snd s).
+Qed.
+
+Lemma suf_name_lower k : forallb is_lower (suf_name k) = true.
+Proof. unfold suf_name. repeat (destruct (_ =? _); [reflexivity|]). reflexivity. Qed.
+
+Lemma is_last_num_ok d o : nd d -> match o with Some c => is_lower c = true | None => True end ->
+  is_last_num (d ++ opt_char o) = true.
+Proof.
+  intros [Hne Hd] Ho. unfold is_last_num.
+  assert (Hl : forall c, is_lower c = true -> is_digit c = false) by (apply impl_bytes_neg; bytes_check).
+  rewrite (span_exact is_digit d Hd).
+  - destruct d; [congruence|]. destruct o as [c|]; cbn; auto.
+  - destruct o as [c|]; [right; cbn; now apply Hl|now left].
+Qed.
+
+Lemma is_nums_main nums o : nums <> [] -> Forall nd nums ->
+  match o with Some c => is_lower c = true | None => True end ->
+  is_nums (split (nb 46) (join (nb 46) nums ++ opt_char o)) = true.
+Proof.
+  intros Hne HF Ho. unfold split. induction nums as [|d ns IH]; [congruence|].
+  inversion HF as [|? ? Hd HF']; subst. pose proof Hd as [Hd1 Hd2].
+  assert (Hnd : nosep (nb 46) d) by (eapply nosep_forallb; [|exact Hd2]; intros c Hc; apply (digit_not c Hc)).
+  destruct ns as [|d2 ns].
+  - cbn [join]. rewrite split_acc_end.
+    + rewrite app_nil_r, rev_involutive. cbn [is_nums]. now apply is_last_num_ok.
+    + intros Hin. apply in_app_or in Hin as [Hin|Hin]; [now apply Hnd|]. destruct o as [c|]; [|destruct Hin].
+      destruct Hin as [Hc|[]]. subst c. discriminate.
+  - change (join (nb 46) (d :: d2 :: ns)) with (d ++ nb 46 :: join (nb 46) (d2 :: ns)). rewrite <- app_assoc. cbn [app].
+    rewrite split_acc_app by assumption. rewrite app_nil_r, rev_involutive.
+    specialize (IH ltac:(discriminate) HF').
+    destruct (split_acc (nb 46) [] (join (nb 46) (d2 :: ns) ++ opt_char o)) as [|x xs] eqn:Es.
+    { now apply split_acc_nonempty in Es. }
+    change (is_nums (d :: x :: xs)) with (nonempty_digits d && is_nums (x :: xs)). rewrite IH. rewrite (proj2 (nonempty_digits_nd d) Hd). reflexivity.
+Qed.
+
+Lemma join_no_us nums : Forall nd nums -> ~ In (nb 95) (join (nb 46) nums).
+Proof.
+  induction nums as [|d ns IH]; intros HF; [intros []|]. inversion HF as [|? ? [_ Hd] HF']; subst.
+  destruct ns as [|d2 ns].
+  - cbn [join]. intros Hin. rewrite forallb_forall in Hd. specialize (Hd _ Hin). discriminate.
+  - change (join (nb 46) (d :: d2 :: ns)) with (d ++ nb 46 :: join (nb 46) (d2 :: ns)). intros Hin.
+    apply in_app_or in Hin as [Hin|[Hin|Hin]].
+    + rewrite forallb_forall in Hd. specialize (Hd _ Hin). discriminate.
+    + discriminate. + now apply IH in Hin.
+Qed.
+
+Theorem pms_version_print v : wfv v -> is_pms_version (print_version v) = true.
+Proof.
+  intros W. pose proof W as [Hne Hn Hl Hs Hr]. rewrite print_version_eq, app_assoc.
+  set (body := print_ver_main v ++ print_sufs v).
+  assert (Hb : nosep (nb 45) body) by (eapply nosep_forallb; [apply vb_not_hy|now apply vb_body]).
+  unfold is_pms_version, split2.
+  assert (E2 : split2_acc (nb 45) [] (body ++ revtxt v) =
+               (body, match v_rev v with Some d => Some (nb 114 :: d) | None => None end)).
+  { unfold revtxt. destruct (v_rev v) as [d|].
+    - rewrite split2_acc_app by assumption. now rewrite app_nil_r, rev_involutive.
+    - rewrite app_nil_r. rewrite split2_acc_nosep by assumption. now rewrite app_nil_r, rev_involutive. }
+  rewrite E2. apply andb_true_iff. split.
+  - destruct (v_rev v) as [d|]; [|reflexivity]. replace (is 114 (nb 114)) with true by reflexivity.
+    now apply nonempty_digits_nd.
+  - unfold body, print_sufs. rewrite body_join. rewrite split_join.
+    + apply andb_true_iff. split; [now apply is_nums_main|].
+      rewrite forallb_forall. intros c Hc. apply in_map_iff in Hc as (s & <- & Hs'). apply is_suf_chunk_ok.
+      rewrite Forall_forall in Hs. now apply Hs.
+    + discriminate.
+    + constructor.
+      * unfold print_ver_main. intros Hin. apply in_app_or in Hin as [Hin|Hin].
+        -- exact (join_no_us _ Hn Hin).
+        -- destruct (v_letter v) as [c|]; [|destruct Hin]. destruct Hin as [Hc|[]]. subst c. discriminate.
+      * apply Forall_forall. intros c Hc. apply in_map_iff in Hc as (s & <- & Hs').
+        rewrite Forall_forall in Hs. destruct (Hs s Hs') as [_ Hd]. unfold chunk_of. intros Hin. apply in_app_or in Hin as [Hin|Hin].
+        -- pose proof (suf_name_lower (fst s)) as Hlw. rewrite forallb_forall in Hlw. specialize (Hlw _ Hin). discriminate.
+        -- rewrite forallb_forall in Hd. specialize (Hd _ Hin). discriminate.
+Qed.
